@@ -4,7 +4,7 @@ import (
 	"fmt"
 )
 
-var c10Edits = []string{"Del_input", "Del_output", "Add_input", "Add_output", "Add_processor", "Del_bond", "Add_bond"}
+var c10Edits = []string{"Del_input", "Del_output", "Add_input", "Add_output", "Add_processor", "Del_bond", "Add_bond", "Attach_benchmark_core"}
 
 func c10Histories(maxLen int, ndom int) []string {
 	ops := []string{"I", "O"}
@@ -80,6 +80,19 @@ func C10(tier string) int {
 					if inr == 1 && ((e == 0 && ni == 0) || (e == 1 && no == 0) || (e == 5 && nin == 0)) {
 						continue // no in-range argument exists on this shape
 					}
+					if e == 7 {
+						if inr == 0 {
+							continue
+						}
+						// one configuration per pair of internal outputs (names are text, hence concrete)
+						for a := 0; a < nout; a++ {
+							for b := 0; b < nout; b++ {
+								all = append(all, Config{Name: fmt.Sprintf("doms=%s hist=%q %s out=%d out=%d", doms, h, c10Edits[e], a, b), Func: "zzC10",
+									Args: []Arg{S(h), S(doms), I(e), I(1), I(a), I(b)}})
+							}
+						}
+						continue
+					}
 					if e == 6 {
 						// one configuration per endpoint pair (names are text, hence concrete)
 						for a := 0; a < nin; a++ {
@@ -118,7 +131,7 @@ func C10(tier string) int {
 		ID: "C10", Level: "proof", Tier: tier,
 		Harness:  Harness{File: "c10.go", Pkg: "pkg/bondmachine"},
 		LoadPkgs: []string{"pkg/bondmachine"},
-		Opts:     RunOpts{Inits: []string{"pkg/bondmachine"}, PanicObl: true},
+		Opts:     RunOpts{Inits: []string{"pkg/bmnumbers", "pkg/procbuilder", "pkg/bondmachine"}, PanicObl: true},
 		Configs:  cfgs,
 		Assumptions: []string{
 			"edit arguments (input/output/bond/domain ids) are >= 0 (documented domain of an id)",
